@@ -5252,3 +5252,35 @@ def pan18(ctx, unit=None, prefix="asca::", floor=0):
         raise AnchorMissing("PAN-18: %d backward walks found (expected >= %d)" % (n, floor))
     r.analysed = {"backward_walks": n}
     return r
+
+
+# ---------------------------------------------------------------- RT-7: rendering removes marks, not text that looks like a replacement
+
+def rt7(ctx):
+    """Word::render builds the printed word and then rewrites syllable boundaries (`$ > str`). Whatever it removes or
+    rewrites in the finished buffer it finds by LITERAL marks (`.`, `ˈ`, `ˌ`): a `strip_prefix` / `trim_start_matches` /
+    `replace` whose *pattern* is the user's replacement string removes text that merely looks like a boundary -- a word
+    whose first segment is printed with that very string loses it."""
+    r = RuleResult("RT-7", "Word::render: every strip / trim / replace on the output buffer searches for literal marks, never for an alias-supplied string", floor=1)
+    lib = ctx.lib
+    b = ctx.fn(lib, "asca::word::Word::render")
+    n = 0
+    k = 0
+    for x in hirq.walk(b.hir["body"]):
+        if x["e"] != "mcall" or x["name"] not in ("strip_prefix", "strip_suffix", "trim_start_matches", "trim_end_matches", "trim_matches", "replace", "replacen", "starts_with", "ends_with", "split", "find", "rfind") or not x["args"]:
+            continue
+        if "str" not in (x.get("rty") or "").lower():
+            continue
+        n += 1
+        pat = hirq.strip(x["args"][0])
+        literal = all(y["e"] in ("lit", "array", "addr") for y in hirq.walk(pat))
+        removing = x["name"] in ("strip_prefix", "strip_suffix", "trim_start_matches", "trim_end_matches", "trim_matches", "replace", "replacen")
+        bad = removing and not literal
+        r.inst("render: `%s` #%d searches for %s" % (x["name"], k, "literal marks" if literal else "a computed string"), fn_loc(b, x.get("ln")), "report" if bad else "ok")
+        if bad:
+            r.report("RT-7|render|%s#%d" % (x["name"], k), fn_loc(b, x.get("ln")), b.path,
+                     "`%s` removes / rewrites text of the printed word that equals an alias-supplied string, not a mark the renderer wrote: with `$ > '` and `ʔ > '` the word `ʔa.ta` is printed `a'ta` instead of `'a'ta` (its first segment looks like a leading boundary and is stripped)" % x["name"])
+        k += 1
+    if n < 1:
+        raise AnchorMissing("RT-7: no string search on the output buffer found in Word::render")
+    return r
